@@ -15,6 +15,9 @@ def warm_layouts():
                  ("Layouts", "Layouts_cli.cfg")]:
         C.run_tlc(m, c, workers=12, timeout=7200)
     C.run_tlc("Lsp", "Lsp_quick.cfg", workers=8, timeout=3600)
+    C.run_tlc("Conc", "Conc_c09.cfg", workers=12, timeout=3600)
+    C.run_tlc("Conc", "Conc_c10.cfg", workers=12, timeout=3600)
+    C.run_tlc("ImportWalk", "ImportWalk.cfg", workers=8, timeout=3600)
 
 
 CHECKS = {
@@ -27,6 +30,7 @@ CHECKS = {
     "C08": layouts.check_c08,
     "C09": concchecks.check_c09,
     "C10": concchecks.check_c10,
+    "C12": concchecks.check_c12,
     "C16": depgraphs.check_c16,
     "C19": lspchecks.check_c19,
     "C20": clichecks.check_c20,
